@@ -160,3 +160,334 @@ func libLength(subs []geom.Sub) (l float64) {
 	}
 	return p.Length()
 }
+
+func c05Corpus() []any {
+	var out []any
+	add := func(s string, off float64, d ...float64) {
+		if p, err := canvas.ParseSVGPath(s); err == nil {
+			out = append(out, &c05Case{P: dataCopy(p), Dashes: d, Offset: off, Kind: "corpus"})
+		}
+	}
+	add("M0 0L10 0", 0, 1, 0, 2, 3)         // interior zero gap: [1 0 2 3] is dash 3 gap 3
+	add("M0 0L10 0", 0, 2, 1)               // plain
+	add("M0 0L10 0", 0, 1)                  // odd length doubled
+	add("M0 0L10 0", 0, 0)                  // all zero
+	add("M0 0L10 0", 0, 0, 1, 2)            // leading zero dash
+	add("M0 0L10 0L10 10L0 10z", 1, 3, 2)   // closed, starts inside a dash
+	add("M0 0L10 0L10 10L0 10z", -1, 3, 2)  // negative offset
+	add("M0 0L10 0L10 10L0 10z", -11, 3, 2) // negative offset beyond one period
+	add("M0 0L10 0L10 10L0 10z", 0, 50)     // dash longer than the path
+	add("M0 0L10 0M20 0L30 0", 0.5, 2, 1)   // two sub-paths
+	add("M0 0A10 10 0 0 1 20 0A10 10 0 0 1 0 0z", 0, 3, 2)
+	add("M-6 -1L-6 -6z", 0, 2, 0.2, 14) // out-and-back contour: the join must not merge the reversal away
+	return out
+}
+
+type interval struct{ a, b float64 }
+
+// dashModel returns the on-intervals within [0,L] prescribed by the raw pattern: array doubled if of
+// odd length, repeated cyclically, pattern phase at path position s is s+offset. Zero-length dashes
+// vanish, dashes separated by zero-length gaps merge. pre/post: by how much the dash covering the
+// start/end of the path extends beyond it. ok=false: pattern without extent (all zero).
+func dashModel(d []float64, offset, L float64) (on []interval, pre, post float64, ok bool) {
+	dd := append([]float64(nil), d...)
+	if len(dd)%2 == 1 {
+		dd = append(dd, dd...)
+	}
+	period := 0.0
+	for _, x := range dd {
+		period += x
+	}
+	if !(period > 0) || math.IsInf(period, 0) {
+		return nil, 0, 0, false
+	}
+	phase := math.Mod(offset, period)
+	if phase < 0 {
+		phase += period
+	}
+	s := -phase // path position where a pattern period starts
+	for guard := 0; s < L && guard < 1000000; {
+		for i, x := range dd {
+			if i%2 == 0 && x > 0 {
+				a, b := math.Max(s, 0), math.Min(s+x, L)
+				if b > a {
+					if s < 0 && a == 0 {
+						pre = math.Max(pre, -s)
+					}
+					if s+x > L && b == L {
+						post = math.Max(post, s+x-L)
+					}
+					if n := len(on); n > 0 && on[n-1].b >= a {
+						on[n-1].b = math.Max(on[n-1].b, b)
+					} else {
+						on = append(on, interval{a, b})
+					}
+				}
+			}
+			s += x
+			guard++
+		}
+	}
+	return on, pre, post, true
+}
+
+type c05Want struct {
+	start, end Pt
+	length     float64
+	sub        int
+}
+
+type c05Piece struct {
+	sub    *geom.Sub
+	length float64
+}
+
+func c05Check(ci any, o *core.Obs) {
+	c := ci.(*c05Case)
+	P := pathFrom(c.P)
+	src, err := refSubs(P)
+	if err != nil || len(src) == 0 {
+		o.Skip("source not decodable")
+		return
+	}
+	scale := geom.BoxPolys(geom.Flatten(src, 1e-2, false)).Scale()
+	dArg := append([]float64(nil), c.Dashes...)
+	var D *canvas.Path
+	if !o.Call("Path.Dash", func() { D = pathFrom(c.P).Dash(c.Offset, dArg...) }) {
+		return
+	}
+	if D == nil {
+		o.Fail("nil", "Dash returned nil")
+		return
+	}
+	if len(c.Dashes) == 0 {
+		o.Decided(1)
+		o.NonTrivial()
+		if !bitsEqual(D.Data(), P.Data()) {
+			o.Fail("empty-pattern", "Dash with an empty pattern returned %s instead of the path %s", pstr(D), pstr(P))
+		}
+		return
+	}
+	ds, err := refSubs(D)
+	if err != nil {
+		o.Fail("malformed", "Dash returned undecodable data: %v", err)
+		return
+	}
+	curved := false
+	for si := range src {
+		for i := range src[si].Segs {
+			if src[si].Segs[i].Kind != geom.Line {
+				curved = true
+			}
+		}
+	}
+	var obs []c05Piece
+	for i := range ds {
+		if len(ds[i].Segs) == 0 {
+			continue
+		}
+		obs = append(obs, c05Piece{&ds[i], refLength(ds[i:i+1], scale)})
+	}
+	// every piece lies on the input
+	if len(ds) > 0 {
+		worst, at := 0.0, Pt{}
+		for _, q := range geom.SampleSubs(ds, 3) {
+			if d := geom.DistToSubs(q, src); d > worst {
+				worst, at = d, q
+			}
+		}
+		o.Max("piece_off_path_rel", worst/scale)
+		o.Decided(1)
+		if worst > 1e-7*scale {
+			o.Fail("off-path", "Dash(%g,%v): point %v of the result is %.4g away from the input %s", c.Offset, c.Dashes, at, worst, pstr(P))
+			return
+		}
+	}
+	// expected pieces, sub-path by sub-path, with the acceptable variants on closed sub-paths
+	var perSub [][][]c05Want
+	allZero := false
+	totalWant, tauMax := 0.0, 0.0
+	for si := range src {
+		dense := geom.FlattenSub(&src[si], 1e-8*scale)
+		tab := geom.NewArcTable(dense)
+		L := tab.Total()
+		if !(L > 0) {
+			continue
+		}
+		tau := 1e-9*scale + 1e-9*L
+		if curved {
+			tau = c05PosRel*L + 1e-9*scale
+		}
+		tauMax = math.Max(tauMax, tau)
+		on, pre, post, ok := dashModel(c.Dashes, c.Offset, L)
+		if !ok {
+			allZero = true
+			break
+		}
+		var ws []c05Want
+		for _, iv := range on {
+			ws = append(ws, c05Want{tab.PosAt(iv.a), tab.PosAt(iv.b), iv.b - iv.a, si})
+			totalWant += iv.b - iv.a
+		}
+		// Closed sub-paths: a dash running across the start point is one piece (joined); if the path
+		// only ends inside a dash, "path order" is cyclic and the library emits that last dash first.
+		// When a dash boundary falls within tau of the start/end the library's own (approximate) length
+		// decides, so both readings are accepted there. Certain only if the dash covering the start
+		// (end) extends beyond it by more than tau: an offset that is a multiple of the period puts a
+		// dash boundary exactly on the start point.
+		tiny := 1e-9*scale + 1e-9*L
+		variants := [][]c05Want{ws}
+		if src[si].Closed && len(ws) >= 1 {
+			startsIn, endsIn := on[0].a <= tau, on[len(on)-1].b >= L-tau
+			startsSure, endsSure := on[0].a <= tiny && pre > tau, on[len(on)-1].b >= L-tiny && post > tau
+			joinedList := func() []c05Want {
+				if len(ws) == 1 {
+					w := ws[0]
+					w.end = w.start
+					return []c05Want{w}
+				}
+				first, last := ws[0], ws[len(ws)-1]
+				joined := c05Want{last.start, first.end, first.length + last.length, si}
+				return append([]c05Want{joined}, ws[1:len(ws)-1]...)
+			}
+			rotated := func() []c05Want {
+				if len(ws) < 2 {
+					return ws
+				}
+				return append([]c05Want{ws[len(ws)-1]}, ws[:len(ws)-1]...)
+			}
+			switch {
+			case startsSure && endsSure:
+				variants = [][]c05Want{joinedList()}
+			case startsIn && endsIn:
+				variants = [][]c05Want{joinedList(), ws, rotated()}
+			case endsIn:
+				variants = [][]c05Want{rotated(), ws}
+			}
+		}
+		perSub = append(perSub, variants)
+	}
+	if allZero {
+		o.Decided(1)
+		o.NonTrivial()
+		if !D.Empty() {
+			o.Fail("all-zero-pattern", "Dash with an all-zero pattern %v returned %s instead of nothing", c.Dashes, pstr(D))
+		}
+		return
+	}
+	nExp, combos := 0, 1
+	for _, vs := range perSub {
+		nExp += len(vs[0])
+		combos *= len(vs)
+	}
+	if nExp > 0 {
+		o.NonTrivial()
+	}
+	// match expected and observed pieces in order; pieces shorter than 4*tau may be missing or extra
+	tryMatch := func(mask int) (matched int, worstPos float64, tag, msg string) {
+		var exp []c05Want
+		for _, vs := range perSub {
+			exp = append(exp, vs[mask%len(vs)]...)
+			mask /= len(vs)
+		}
+		i, j := 0, 0
+		for i < len(exp) || j < len(obs) {
+			if i < len(exp) && j < len(obs) {
+				e, q := exp[i], obs[j]
+				ds, de := q.sub.Start.Dist(e.start), q.sub.End().Dist(e.end)
+				dl := math.Abs(q.length - e.length)
+				if ds <= tauMax && de <= tauMax && dl <= 2*tauMax {
+					worstPos = math.Max(worstPos, math.Max(ds, math.Max(de, dl/2)))
+					matched++
+					i++
+					j++
+					continue
+				}
+			}
+			if i < len(exp) && exp[i].length <= 4*tauMax {
+				i++
+				continue
+			}
+			if j < len(obs) && obs[j].length <= 4*tauMax {
+				j++
+				continue
+			}
+			switch {
+			case i < len(exp) && j < len(obs):
+				return matched, worstPos, "piece-mismatch", fmt.Sprintf("Dash(%g,%v): piece %d runs %v -> %v (length %.6g), the pattern prescribes %v -> %v (length %.6g, tolerance %.3g) on sub-path %d; input %s", c.Offset, c.Dashes, j, obs[j].sub.Start, obs[j].sub.End(), obs[j].length, exp[i].start, exp[i].end, exp[i].length, tauMax, exp[i].sub, pstr(P))
+			case i < len(exp):
+				return matched, worstPos, "piece-missing", fmt.Sprintf("Dash(%g,%v): the dash %v -> %v (length %.6g) of sub-path %d is missing (%d pieces returned); input %s", c.Offset, c.Dashes, exp[i].start, exp[i].end, exp[i].length, exp[i].sub, len(obs), pstr(P))
+			default:
+				return matched, worstPos, "piece-extra", fmt.Sprintf("Dash(%g,%v): extra piece %v -> %v (length %.6g); input %s", c.Offset, c.Dashes, obs[j].sub.Start, obs[j].sub.End(), obs[j].length, pstr(P))
+			}
+		}
+		return matched, worstPos, "", ""
+	}
+	firstTag, firstMsg := "", ""
+	matched, worstPos, okMatch := 0, 0.0, false
+	for mask := 0; mask < combos; mask++ {
+		m, w, tag, msg := tryMatch(mask)
+		if tag == "" {
+			matched, worstPos, okMatch = m, w, true
+			break
+		}
+		if firstTag == "" {
+			firstTag, firstMsg = tag, msg
+		}
+	}
+	o.Decided(1)
+	if !okMatch {
+		o.Fail(firstTag, "%s", firstMsg)
+		return
+	}
+	o.Decided(matched)
+	o.Count("pieces_matched", float64(matched))
+	if tauMax > 0 {
+		o.Max("piece_position_err_over_tau:"+c.Kind, worstPos/tauMax)
+	}
+	total := 0.0
+	for _, q := range obs {
+		total += q.length
+	}
+	o.Decided(1)
+	if math.Abs(total-totalWant) > 2*tauMax*float64(nExp+1) {
+		o.Fail("total-length", "Dash(%g,%v): total drawn length %.6g, the pattern prescribes %.6g", c.Offset, c.Dashes, total, totalWant)
+	}
+}
+
+// c05PosRel: allowed error of a dash end as a fraction of the sub-path length on curved paths (the
+// library inverts arc length approximately, see C09: observed 0.16% on mild Béziers, 0.7% on mildly
+// elliptic arcs). Polylines are exact (1e-9).
+const c05PosRel = 0.01
+
+func c05Describe(ci any) any {
+	c := ci.(*c05Case)
+	return map[string]any{"kind": c.Kind, "P": dstr(c.P), "dashes": c.Dashes, "offset": c.Offset}
+}
+
+func init() {
+	core.Register(&core.Property{
+		ID:    "C05",
+		Title: "Dashing cuts the path by arc length according to the pattern",
+		Rule: "random paths by curve class (polylines incl. integer grids, mild Béziers, circular and mildly elliptic arcs, mixed; 1-3 open/closed sub-paths) x dash arrays of length 0-12 with values {0, 0.1, 0.5, 1, 2.5, 7, 500} x unit (zeros, repeated sub-patterns, odd lengths) x offsets (0, real and integer multiples of the period in [-3,3], small); " +
+			"pattern model (doubled if odd, cyclic, shifted, zero dashes vanish, zero gaps merge, wrap-around join on closed sub-paths) vs the returned pieces: every piece on the input, start/end points at the prescribed arc lengths, lengths, order, count, total; non-trivial = at least one prescribed dash; distinct = distinct case hash",
+		Strata: []core.Stratum{
+			{Name: "lines", Quick: 2000, Thorough: 60000, Gen: genC05("lines")},
+			{Name: "lines-grid", Quick: 1500, Thorough: 40000, Gen: genC05("lines-grid")},
+			{Name: "mild-beziers", Quick: 1000, Thorough: 20000, Gen: genC05("mild-beziers")},
+			{Name: "circular-arcs", Quick: 1000, Thorough: 20000, Gen: genC05("circular-arcs")},
+			{Name: "mild-elliptic-arcs", Quick: 500, Thorough: 10000, Gen: genC05("mild-elliptic-arcs")},
+			{Name: "mixed", Quick: 1000, Thorough: 20000, Gen: genC05("mixed")},
+			{Name: "end-boundary", Quick: 500, Thorough: 5000, Gen: genC05("end-boundary"), WitnessOnly: true, Note: "a dash ending within 1e-5..2e-3 of the length before the end of a curved sub-path: the last dash is dropped in 25% of the cases (Length() and SplitAt's own arc-length estimate disagree)"},
+		},
+		NewCase:  func() any { return &c05Case{} },
+		Corpus:   c05Corpus,
+		Check:    c05Check,
+		Describe: c05Describe,
+		Assumptions: []string{
+			"reference arc length tables from a polyline with chord error below 1e-8*scale",
+			"on curved paths dash ends may be off by 1% of the sub-path length (the library's approximate arc-length inversion, monitored by C09); polylines are held to 1e-9",
+			"random cases keep dash boundaries out of the zone next to a curved sub-path's end where the library's two length estimates disagree (pinned by F-C05-end-boundary witnesses); eccentric elliptic arcs and hairpin Béziers are not generated (C09 findings)",
+		},
+	})
+}
